@@ -278,6 +278,13 @@ def gen_xss(rng, thorough):
         (f"{imp}\ndef view(x):\n    return {callee}(x)\n", (M, H), "b703:param"),
         (f"{imp}\ndef view(x):\n    x = 'lit'\n    return {callee}(x)\n", (M, H), "b703:param-reassigned"),
         (f"{imp}\ndef view(a, *, x='d'):\n    return {callee}(x)\n", (M, H), "b703:kwonly-param"),
+        # a parameter reaches mark_safe through an alias or a literal template although it is ALSO assigned a literal somewhere: the caller can still supply
+        # the value (seeded change C17-m4 dropped the "parameters are not secure" test from the recursive evaluator, keeping it only for the direct argument)
+        (f"{imp}\ndef view(label=None):\n    if not label:\n        label = 'n/a'\n    caption = label\n    return {callee}(caption)\n", (M, H), "b703:param-via-alias"),
+        (f"{imp}\ndef view(label=None):\n    if not label:\n        label = 'n/a'\n    return {callee}('<b>{{}}</b>'.format(label))\n", (M, H), "b703:param-via-format"),
+        (f"{imp}\ndef view(label=None):\n    label = 'n/a'\n    return {callee}('<b>%s</b>' % label)\n", (M, H), "b703:param-via-percent"),
+        (f"{imp}\ndef view(label):\n    label = 'x'\n    a = label\n    b = a\n    return {callee}('{{}} {{}}'.format('k', b))\n", (M, H), "b703:param-via-chain"),
+        (f"{imp}\ndef view(label):\n    a, b = 'p', label\n    return {callee}(b)\n", (M, H), "b703:param-via-tuple"),
         (f"{imp}\ndef view(x, /):\n    return {callee}(x)\n", (M, H), "b703:posonly-param"),
         (f"{imp}\nx = 'lit'\ndef view():\n    return {callee}(x)\n", "?", "b703:global-read"),
         (f"{imp}\nout = {callee}(x)\nx = 'lit'\n", (M, H), "b703:assigned-after"),
